@@ -337,6 +337,7 @@ class Path:
         self.vars: dict[str, Any] = {}
         self.path_axioms: list = []
         self.used_lemmas: set[str] = set()
+        self.theories: set[str] = set()
 
     def _feas_add(self, c):
         if not _has_quantifier(c):
@@ -782,7 +783,7 @@ class Interp:
 
     def st_AnnAssign(self, s):
         if s.value is not None:
-            self.assign(s.target, self.ev(s.value))
+            self.st_Assign(ast.Assign(targets=[s.target], value=s.value, lineno=s.lineno, col_offset=s.col_offset))
 
     def st_AugAssign(self, s):
         cur = self.ev(_load(s.target))
@@ -1190,6 +1191,9 @@ class Interp:
 
     def arr_elem(self, al: ArrList, i):
         t = z3.Select(al.arr, i)
+        if al.elem.startswith('arrlist['):
+            # an element that is itself a list: view the (items, n) record as an array-backed list
+            return ArrList(S.rec_get(t, 'items'), S.rec_get(t, 'n'), al.elem[len('arrlist['):-1])
         if al.elem == 'arrstr':
             # element is a line: (base array shared, start/end from side arrays) -- see ArrLines
             self.oos('arrstr element access')
@@ -1374,6 +1378,8 @@ class Interp:
         return v
 
     def coerce_sort(self, v, sort, node):
+        if isinstance(v, ArrList) and S.record_name(sort) in S.LIST_RECORDS:
+            return S.rec_make(S.record_name(sort), items=v.arr, n=v.n)
         if v is None and sort == S.UNIONS.get('Outcome'):
             return S.UNIONS['Outcome'].o_none
         v = self.z(v)
@@ -1479,6 +1485,9 @@ class Interp:
             return PyConst('excclass', self.w.exc.resolve(name))
         if name in BUILTINS:
             return PyConst('builtin', name)
+        ext = getattr(self.w.registry, 'extern_funcs', {}).get(name)
+        if ext is not None and name not in self.w.registry.specs:
+            return PyConst('builtin', ext)
         alias = getattr(self.w.registry, 'class_alias', {}).get(name)
         if alias is not None:
             name = alias
@@ -1712,6 +1721,10 @@ class Interp:
             return z3.Select(container.f['mkeys'], self.coerce_sort(x, container.f['mkeys'].sort().domain(), n))
         if isinstance(container, PRec) and 'okeys' in container.f:
             return z3.Contains(container.f['okeys'], z3.Unit(self.coerce_sort(x, container.f['okeys'].sort().basis(), n)))
+        if isinstance(container, ArrList):
+            k = z3.FreshConst(z3.IntSort(), 'm')
+            xx = self.coerce_sort(x, container.arr.sort().range(), n)
+            return z3.Exists([k], z3.And(k >= 0, k < container.n, z3.Select(container.arr, k) == xx))
         if S.is_val(container):
             # dict membership (AST) or list membership
             self.p.oblige('type', Val.is_vdict(container), n, '`in` on a dict value')
@@ -1726,7 +1739,9 @@ class Interp:
             if isinstance(a, str) and isinstance(b, str):
                 return a + b
             if isinstance(a, str) or isinstance(b, str) or S.is_str(a) or S.is_str(b):
-                return z3.Concat(self.as_str(a, n), self.as_str(b, n))
+                return self.str_concat([a if isinstance(a, str) else self.as_str(a, n), b if isinstance(b, str) else self.as_str(b, n)])
+            if isinstance(a, ArrList) or isinstance(b, ArrList):
+                return self.arrlist_concat(a, b, n)
             if S.is_seq(a) or S.is_seq(b):
                 return z3.Concat(self.as_seq(a, n), self.as_seq(b, n))
             if S.is_val(a) and S.is_val(b) and not self.spec:
@@ -1745,6 +1760,10 @@ class Interp:
         if isinstance(op, ast.Mult):
             if isinstance(a, int) and isinstance(b, int) and not z3.is_expr(a) and not z3.is_expr(b):
                 return a * b
+            if (isinstance(a, str) or S.is_str(a)) and not (isinstance(b, str) or S.is_str(b)):
+                return self.str_repeat(a, self.as_int(b, n), n)
+            if (isinstance(b, str) or S.is_str(b)) and not (isinstance(a, str) or S.is_str(a)):
+                return self.str_repeat(b, self.as_int(a, n), n)
             if S.is_seq(a) or S.is_seq(b) or isinstance(a, str) or isinstance(b, str):
                 self.oos('sequence repetition', n)
             return self.as_int(a, n) * self.as_int(b, n)
@@ -1767,6 +1786,53 @@ class Interp:
                 items = (a.items if isinstance(a, PyTuple) else [a]) + (b.items if isinstance(b, PyTuple) else [b])
                 return PyTuple(items)
         self.oos(f'binary operator {type(op).__name__}', n)
+
+    # ---- array-backed lists ----------------------------------------------------------
+    def to_arrlist(self, v, elem, node=None):
+        """a list value given structurally (units of a z3 Seq) as an array-backed list of `elem`"""
+        if isinstance(v, ArrList):
+            return v
+        es = S.sort_of(elem)
+        if S.is_seq(v):
+            parts = self.seq_parts(v)
+            arr = self.p.fresh('lst_a', z3.ArraySort(z3.IntSort(), es))
+            i = 0
+            for part in parts:
+                if z3.is_app(part) and part.decl().kind() == z3.Z3_OP_SEQ_UNIT:
+                    arr = z3.Store(arr, i, self.coerce_sort(part.arg(0), es, node))
+                    i += 1
+                elif z3.is_app(part) and part.decl().kind() == z3.Z3_OP_SEQ_EMPTY:
+                    continue
+                else:
+                    self.oos('list of unknown shape where an array-backed list is needed', node)
+            return ArrList(arr, z3.IntVal(i), elem)
+        self.oos(f'cannot view {type(v).__name__} as an array-backed list', node)
+
+    def arrlist_concat(self, a, b, node):
+        elem = a.elem if isinstance(a, ArrList) else b.elem
+        a, b = self.to_arrlist(a, elem, node), self.to_arrlist(b, elem, node)
+        if z3.is_int_value(z3.simplify(b.n)) and z3.simplify(b.n).as_long() <= 4:
+            arr, n = a.arr, a.n
+            for j in range(z3.simplify(b.n).as_long()):
+                arr = z3.Store(arr, n + j, z3.simplify(z3.Select(b.arr, j)))
+            return ArrList(arr, z3.simplify(n + b.n), elem)
+        c = self.p.fresh('cat_a', a.arr.sort())
+        k = z3.Int('k!cat')
+        ax = z3.ForAll([k], z3.Select(c, k) == z3.If(k < a.n, z3.Select(a.arr, k), z3.Select(b.arr, k - a.n)))
+        self.p.path_axioms.append(ax)
+        self.p.pc.append(ax)
+        return ArrList(c, a.n + b.n, elem)
+
+    def arrlist_slice(self, obj: ArrList, sl, n):
+        lo, hi = self.slice_bounds(sl, obj.n, n)
+        if z3.is_int_value(lo) and lo.as_long() == 0:
+            return ArrList(obj.arr, hi, obj.elem)  # a prefix shares the array (lists built here are never mutated in place through two names)
+        c = self.p.fresh('slc_a', obj.arr.sort())
+        k = z3.Int('k!slc')
+        ax = z3.ForAll([k], z3.Select(c, k) == z3.Select(obj.arr, k + lo))
+        self.p.path_axioms.append(ax)
+        self.p.pc.append(ax)
+        return ArrList(c, z3.simplify(hi - lo), obj.elem)
 
     def floordiv(self, a, b):
         # z3 integer division rounds so that the remainder is non-negative; python floors
@@ -1825,11 +1891,12 @@ class Interp:
         parts = []
         for v in n.values:
             if isinstance(v, ast.Constant):
-                parts.append(z3.StringVal(v.value))
+                parts.append(v.value)
             elif isinstance(v, ast.FormattedValue):
                 try:
                     if v.format_spec is not None:
-                        self.oos('f-string format spec', n)
+                        parts.append(self.format_padded(v, n))
+                        continue
                     x = self.ev(v.value)
                     parts.append(self.str_of(x, v, repr_=(v.conversion == ord('r'))))
                 except OutOfSubset:
@@ -1837,7 +1904,98 @@ class Interp:
                     parts.append(self.p.fresh('fmt', z3.StringSort()))
         if not parts:
             return z3.StringVal('')
-        return parts[0] if len(parts) == 1 else z3.Concat(*parts)
+        return self.str_concat(parts)
+
+    # ---- strings with a display width (theory `display_width`) -------------------------
+    def str_concat(self, parts):
+        """concatenation of python-str / z3 String parts; with the theory `display_width` switched on, the ground instance
+        width(p1 ++ ... ++ pn) == width(p1) + ... + width(pn) of the (trusted) additivity of the display width is recorded"""
+        terms = [z3.StringVal(x) if isinstance(x, str) else x for x in parts]
+        t = terms[0] if len(terms) == 1 else z3.Concat(*terms)
+        if 'display_width' in getattr(self.p, 'theories', ()) and len(terms) > 1:
+            f = self.w.uf('display_width', z3.StringSort(), z3.IntSort())
+            self.p.assume(f(t) == z3.Sum([self.width_of(x) for x in parts]))
+            if isinstance(parts[-1], str) and parts[-1]:
+                # the text without its literal tail (ground instance of  (a ++ "lit")[:-len("lit")] == a): lets invariants speak
+                # about `s[:-n]` of the strings built here
+                head = terms[0] if len(terms) == 2 else z3.Concat(*terms[:-1])
+                self.p.assume(z3.SubString(t, 0, z3.Length(t) - len(parts[-1])) == head)
+                if len(terms) > 2:
+                    self.p.assume(f(head) == z3.Sum([self.width_of(x) for x in parts[:-1]]))
+        return t
+
+    def width_of(self, x, node=None):
+        f = self.w.uf('display_width', z3.StringSort(), z3.IntSort())
+        if isinstance(x, Char):
+            self.oos('display width of an array-string character', node)
+        if not isinstance(x, str):
+            x = self.as_str(x, node)
+            if z3.is_string_value(x):
+                import re as _re
+                x = _re.sub(r'\\u\{([0-9a-fA-F]+)\}', lambda m: chr(int(m.group(1), 16)), x.as_string())
+        if isinstance(x, str):
+            self.w.assumptions.add('display widths of string literals are computed with this interpreter\'s unicodedata.east_asian_width (as tatsu.util.strtools.unicode_display_len does)')
+            wd = display_width(x)
+            if 'display_width' in getattr(self.p, 'theories', ()):
+                self.p.assume(f(z3.StringVal(x)) == wd)
+            return z3.IntVal(wd)
+        if not getattr(self.p, '_dw_nonneg', False):
+            self.p._dw_nonneg = True
+            sv = z3.Const('s!dw', z3.StringSort())
+            ax = z3.ForAll([sv], f(sv) >= 0)
+            # every character is one or two columns wide: not needed by the proofs (and costly for them), but a counter-model
+            # that respects it can be rebuilt from real characters -- used when a refuted obligation is re-solved for replay
+            if not hasattr(self.w, 'model_hints'):
+                self.w.model_hints = {}
+            self.w.model_hints['display_width'] = lambda t: z3.And(f(t) >= z3.Length(t), f(t) <= 2 * z3.Length(t))
+            self.p.path_axioms.append(ax)
+            self.p.pc.append(ax)
+        return f(x)
+
+    def str_repeat(self, s, k, node):
+        """s * k for a symbolic count: a fresh string with the facts python guarantees about it"""
+        if isinstance(k, int) or z3.is_int_value(k):
+            kk = k if isinstance(k, int) else k.as_long()
+            if kk <= 0:
+                return z3.StringVal('')
+            if kk <= 8:
+                return self.str_concat([s] * kk)
+        st = z3.StringVal(s) if isinstance(s, str) else s
+        r = self.p.fresh('rep', z3.StringSort())
+        cnt = z3.If(k > 0, k, 0)
+        ln = len(s) if isinstance(s, str) else z3.Length(st)
+        self.p.assume(z3.Length(r) == cnt * ln)
+        self.p.assume(z3.Implies(cnt == 0, r == z3.StringVal('')))
+        self.p.assume(z3.Implies(cnt == 1, r == st))
+        if 'display_width' in getattr(self.p, 'theories', ()):
+            f = self.w.uf('display_width', z3.StringSort(), z3.IntSort())
+            self.p.assume(f(r) == cnt * self.width_of(s, node))
+        return r
+
+    def format_padded(self, v, n):
+        """f'{x:{width}}' / f'{x:N}' for a str x: left-aligned, padded with blanks to `width` code points"""
+        spec = v.format_spec
+        svals = [x for x in getattr(spec, 'values', []) if not (isinstance(x, ast.Constant) and x.value == '')]
+        if v.conversion != -1 or not isinstance(spec, ast.JoinedStr) or len(svals) != 1:
+            self.oos('f-string format spec', n)
+        sv = svals[0]
+        if isinstance(sv, ast.Constant) and isinstance(sv.value, str) and sv.value.isdigit():
+            width = int(sv.value)
+        elif isinstance(sv, ast.FormattedValue) and sv.format_spec is None and sv.conversion == -1:
+            width = self.ev(sv.value)
+            if not (isinstance(width, int) and not isinstance(width, bool)) and not S.is_int(width):
+                self.oos('f-string format spec', n)
+        else:
+            self.oos('f-string format spec', n)
+        x = self.ev(v.value)
+        if not (isinstance(x, str) or S.is_str(x)):
+            self.oos('f-string format spec on a non-str value', n)
+        w = self.as_int(width, n)
+        if not self.spec:
+            self.p.oblige('safety', w >= 0, n, 'format width is not negative (ValueError: sign not allowed in string format specifier)', tag='safety')
+        ln = len(x) if isinstance(x, str) else z3.Length(x)
+        pad = self.str_repeat(' ', w - ln, n)
+        return self.str_concat([x, pad])
 
     def str_of(self, x, node, repr_=False):
         if isinstance(x, ExcV):
@@ -1963,7 +2121,7 @@ class Interp:
             return Char(c)
         if isinstance(obj, ArrList):
             i = self.norm_index(idx, obj.n, n)
-            return z3.Select(obj.arr, i)
+            return self.arr_elem(obj, i)
         if isinstance(obj, OpaqueSeq):
             i = self.norm_index(idx, z3.Length(obj.seq), n)
             return obj.elem(obj.seq[i])
@@ -2021,6 +2179,8 @@ class Interp:
         if isinstance(obj, ArrStr):
             lo, hi = self.slice_bounds(sl, obj.length(), n)
             return ArrStr(obj.arr, obj.lo + lo, obj.lo + hi)
+        if isinstance(obj, ArrList):
+            return self.arrlist_slice(obj, sl, n)
         self.oos(f'slice of {type(obj).__name__}', n)
 
     def slice_bounds(self, sl, ln, n):
@@ -2703,6 +2863,12 @@ class GenExp:
 
 
 LIST_MUT = {'append', 'pop', 'extend', 'clear', 'insert'}
+
+def display_width(text: str) -> int:
+    """tatsu.util.strtools.unicode_display_len on a literal: 1 per character, 2 for East Asian wide / fullwidth ones"""
+    import unicodedata
+    return sum(1 + int(unicodedata.east_asian_width(c) in ('W', 'F')) for c in text)
+
 
 BUILTINS = {
     'len', 'isinstance', 'bool', 'int', 'str', 'min', 'max', 'range', 'all', 'any', 'getattr', 'hasattr',
